@@ -133,6 +133,11 @@ def exec_crash_case(case: dict) -> dict:
                 if tag == "ERROR" and ("Consistency" in msg or "Integrity" in msg or "exception" in msg.lower()):
                     errors.append(msg[:200])
             k += 1
+            if run["final_state"] is None:
+                # the restarted director died before it committed anything: there is no state to compare;
+                # the trace of this run carries the exception (reported as restart_director_raised)
+                replay["crash_points"].append({"k": k, "n": snap["n"], "kind": snap["kind"], "at": snap["label"], "died_at_start": True})
+                continue
             rels.append({"tid": case["tid"], "k": k, "rel": "crash_equiv", "a": side(run), "b": ref,
                          "info": {"errors": errors, "crash_kind": snap["kind"], "crash_at": snap["label"],
                                   "crash_n": snap["n"], "lost_queue": snap["lost_queue"],
